@@ -42,7 +42,7 @@ pub fn run(ctx: &mut Ctx) {
     for (n, ok) in r2::selftest() {
         ctx.selftest(&n, ok);
     }
-    ctx.require(&["annex_kat", "fixed_nonce_exact", "free_nonce", "ref_made_accepted", "openssl_made_accepted", "id_default", "id_explicit", "id_empty", "id_8191", "id_too_long", "id_non_ascii_utf8", "msg_empty", "edge_key", "random_key", "e_ge_n", "key_from_constructor", "key_from_gen_keypair", "key_with_jacobian_public_point", "retry:r=0", "retry:r+k=n", "retry:s=0", "digest_regular", "id_len_threshold", "msg_beyond_2^16_bits", "verifier_key_from_compressed_bytes", "id_length_sweep"]);
+    ctx.require(&["annex_kat", "fixed_nonce_exact", "free_nonce", "ref_made_accepted", "openssl_made_accepted", "id_default", "id_explicit", "id_empty", "id_8191", "id_too_long", "id_non_ascii_utf8", "msg_empty", "edge_key", "random_key", "e_ge_n", "key_from_constructor", "key_from_gen_keypair", "key_with_jacobian_public_point", "retry:r=0", "retry:r+k=n", "retry:s=0", "digest_regular", "id_len_threshold", "msg_beyond_2^16_bits", "verifier_key_from_compressed_bytes", "id_length_sweep", "signature_with_chosen_leading_bytes"]);
     let c = r2::curve();
 
     // --- Annex example through the library with the nonce injected
@@ -190,6 +190,42 @@ pub fn run(ctx: &mut Ctx) {
         }
     }
 
+    // --- valid signatures whose r (or s) BEGINS with chosen bytes: 30 3e (looks like the header of a 64-byte DER
+    // SEQUENCE), 30 44, 04, 00 00 (short value), ff ff. The message is searched (about 2^16 digests) for a fixed key and
+    // nonce; the signature is an ordinary valid one and must be produced and accepted like any other.
+    {
+        let mut ps = ctx.prng("sig_prefix");
+        let pats: [(&str, usize, &[u8]); 8] = [("r=303e..", 0, &[0x30, 0x3e]), ("r=3044..", 0, &[0x30, 0x44]), ("r=0000..", 0, &[0, 0]), ("r=ffff..", 0, &[0xff, 0xff]), ("r=04..", 0, &[0x04]), ("s=303e..", 32, &[0x30, 0x3e]), ("s=0000..", 32, &[0, 0]), ("s=ffff..", 32, &[0xff, 0xff])];
+        for (pi, (name, off, want)) in pats.iter().enumerate() {
+            let sub = ps.next();
+            if !ctx.mine(pi as u64 + 1) {
+                continue;
+            }
+            let mut p = Prng::new(sub, "sp");
+            let d = rand_scalar(&mut p, &(&c.n - 1u32));
+            let k = rand_scalar(&mut p, &c.n);
+            let pk = r2::mul(&d, &r2::g()).unwrap();
+            let x1 = r2::mul(&k, &r2::g()).unwrap().0;
+            let inv = (BigUint::from(1u32) + &d).modinv(&c.n).unwrap();
+            let za = r2::za(DEFAULT_ID.as_bytes(), &pk);
+            let mut found = None;
+            for ctr in 0..(1u64 << 21) {
+                let msg = format!("prefix-search-{}-{}", pi, ctr).into_bytes();
+                let e = r2::from_b(&crate::refs::sm3::sm3_parts(&[&za, &msg]));
+                let r = (&e + &x1) % &c.n;
+                let v = if *off == 0 { r.clone() } else { (&inv * ((&k + &c.n * &c.n - &r * &d) % &c.n)) % &c.n };
+                if r2::b32(&v)[..want.len()] == **want {
+                    found = Some(msg);
+                    break;
+                }
+            }
+            let Some(msg) = found else { continue };
+            ctx.class("signature_with_chosen_leading_bytes");
+            ctx.class(&format!("sig_prefix:{}", name));
+            fixed_case(ctx, &d, None, DEFAULT_ID, &msg, &k, "signature_with_chosen_leading_bytes");
+            ref_made_case(ctx, &d, None, DEFAULT_ID, &msg, &k, 0);
+        }
+    }
     // --- signer ID lengths 0..=130: the hash input of ZA (194 + |ID| bytes) takes every residue modulo the SM3 block size
     {
         let mut pi = ctx.prng("id_sweep");
